@@ -114,7 +114,9 @@ def site_texts(repo: Repo, relsfx: str, qual: str) -> List[str]:
 
     cls, meth = qual.split(".", 1)
     if "formatter.py" in relsfx:
-        return formatter_returns(repo, relsfx, cls, meth)
+        # helpers that only arrange the strings they are given (a constructor-call builder) are seen through
+        # in the Python and Go formatters; the C role patterns name the C helpers themselves
+        return formatter_returns(repo, relsfx, cls, meth, string_helpers="/c/" not in relsfx)
     em = class_emissions(repo, relsfx, method=meth, named="plain")
     if cls not in em:
         raise Inconclusive(f"{qual}: emission not computable")
